@@ -135,7 +135,7 @@ class Model:
             self.seq += 1
             seq = self.seq
         fault = self.world.faults.get(path)
-        if fault in ("err", "errx"):
+        if fault in ("err", "errx", "errs"):
             exp.errors.append({
                 "path": path, "kind": "err", "message": error_message(path),
                 "first": node.pos,
